@@ -540,6 +540,11 @@ pub fn run_case(c: &Case) -> Outcome {
             if kind != Kind::Base && m_admin.as_deref() != Some(CREATOR) || c_creator != CREATOR {
                 viol.push(("C08:not-administered-by-creator".into(), format!("{}: minter admin {:?}, collection creator {}", hist_key, m_admin, c_creator)));
             }
+            // chain-level administration: the collection's wasm admin is the creator named in the request
+            // (the minter's wasm admin is whoever sent CreateMinter: compared with the model, not judged here)
+            if c_wasm_admin.as_deref() != Some(CREATOR) {
+                viol.push(("C08:collection-wasm-admin-not-creator".into(), format!("{}: the new collection's contract admin is {:?}, the request names {} as creator", hist_key, c_wasm_admin, CREATOR)));
+            }
         }
         // the request was within bounds (documented rules, parameters in force)
         let e = if kind == Kind::TokenMerge { praw.clone() } else { praw["extension"].clone() };
